@@ -45,6 +45,8 @@ PROGRAMS = [
     ('pkg/main.py', 'from . import sib\nfrom .sib import v\nsib.v\nv\n'),
     ('pkg/deep/main.py', 'from .. import sib\nfrom ..sib import v as w\nfrom . import leaf\nfrom .leaf import leafv, me\nsib\nw\nleaf\nleafv\nme\n'),
     ('pkg/deep/main.py', 'from ..sib import *\nv\nfrom pkg.deep.leaf import *\nleafv\nme\n'),
+    ('pkg/deep/main.py', 'from .leaf import *\nfrom ..sib import *\nleafv\nv\n'),
+    ('pkg/deep/main.py', 'from ..sib import *\nfrom .leaf import *\nv\nleafv\nme\n'),
 ]
 try:
     RUNS_OK = json.load(open(os.path.join(ROOT, 'runs_ok.json')))
